@@ -221,6 +221,19 @@ type c15Case struct {
 	// (a body backed by a connection whose peer is gone); only for messages that
 	// are not chunked, where the unlogged path forwards every byte regardless.
 	CloseErr bool `json:"body_close_fails,omitempty"`
+	// ReadErr: the original body delivers some bytes and then, in one Read, more
+	// bytes together with a non-EOF error (an upstream that resets mid-body).
+	// Only with loggers that pass the body through for this message (capturing
+	// loggers document that a Read error is returned and the body is left in an
+	// intermediate state) and without chunked framing.
+	ReadErr bool `json:"body_read_fails_midway,omitempty"`
+	// Between: the exchange is marked SkipLogging after the request passed the
+	// logger and before the response does (a later request modifier marks it).
+	Between bool `json:"skip_marked_between_request_and_response,omitempty"`
+	// Undeclared: chunked messages send trailer fields without a Trailer header;
+	// only the snapshot clauses are judged then (net/http forwards such trailers
+	// only if the body was read before forwarding).
+	Undeclared bool `json:"undeclared_trailers,omitempty"`
 }
 
 func caseOf(driver, stream string, idx int) c15Case {
@@ -230,6 +243,9 @@ func caseOf(driver, stream string, idx int) c15Case {
 	c.Skip = (idx/(2*len(cfgs)))%6 == 5
 	c.API = c.Skip && (idx/(12*len(cfgs)))%2 == 1
 	c.CloseErr = (idx/(2*len(cfgs)))%5 == 3
+	c.ReadErr = (idx/(2*len(cfgs)))%5 == 1
+	c.Between = c.Skip && c.Resp && !c.API
+	c.Undeclared = c.Cfg.Logger == "mv" && c.Cfg.Opt != "skipbody" && (idx/(2*len(cfgs)))%2 == 0
 	if !c.Resp {
 		c.Rewrite = [...]string{"", "", "", "", "origin-form", "path-query", "host-scheme", "all"}[(idx/(2*len(cfgs)))%8]
 	}
@@ -329,6 +345,73 @@ func (b closeFailBody) Close() error {
 	return errBodyClose
 }
 
+// errBodyRead is what an instrumented body returns, together with data, from
+// the Read that reaches its failure point.
+var errBodyRead = errors.New("harness: body read failed part-way")
+
+// readFailBody delivers failAt bytes of the body it wraps; the Read that
+// delivers the last of them returns them together with errBodyRead.
+type readFailBody struct {
+	rc        io.ReadCloser
+	failAt    int
+	delivered int
+}
+
+func (b *readFailBody) Read(p []byte) (int, error) {
+	if b.delivered >= b.failAt {
+		return 0, errBodyRead
+	}
+	if rest := b.failAt - b.delivered; len(p) > rest {
+		p = p[:rest]
+	}
+	n, err := b.rc.Read(p)
+	b.delivered += n
+	if b.delivered >= b.failAt {
+		return n, errBodyRead
+	}
+	return n, err
+}
+
+func (b *readFailBody) Close() error { return b.rc.Close() }
+
+// passesThrough reports whether the logger configuration leaves the body of a
+// message with content type ct to be read by whoever forwards it.
+func passesThrough(cfg logCfg, ct string, resp bool) bool {
+	switch cfg.Logger {
+	case "marbl":
+		return true
+	case "har":
+		switch cfg.Opt {
+		case "none":
+			return true
+		case "optin":
+			return !hasPrefixFold(ct, []string{"text/", "application/json"})
+		case "optout":
+			return hasPrefixFold(ct, []string{"image/", "application/octet"})
+		}
+	case "text":
+		return cfg.Opt[1] == '1'
+	case "mv":
+		switch cfg.Opt {
+		case "skipbody":
+			return true
+		case "unless-ct":
+			return !(strings.HasPrefix(ct, "text/") || strings.HasPrefix(ct, "application/json"))
+		}
+	}
+	return false
+}
+
+func hasPrefixFold(ct string, ps []string) bool {
+	ct = strings.ToLower(ct)
+	for _, p := range ps {
+		if strings.HasPrefix(ct, strings.ToLower(p)) {
+			return true
+		}
+	}
+	return false
+}
+
 func stubRequest(method, target string) *http.Request {
 	req, err := http.NewRequest(method, target, nil)
 	if err != nil {
@@ -341,13 +424,16 @@ func stubRequest(method, target string) *http.Request {
 func (t *twin) one(r *vh.Run, c c15Case) {
 	rng := r.Rng(c.Stream, c.Idx)
 	key := fmt.Sprintf("t%d", c.Idx)
-	reqSpec := msgx.GenRequest(rng, genOpts(key, false))
+	gopts := genOpts(key, false)
+	gopts.UndeclaredTrailers = c.Undeclared
+	reqSpec := msgx.GenRequest(rng, gopts)
 	var s *msgx.Spec
 	if c.Resp {
-		s = msgx.GenResponse(rng, genOpts(key, false), reqSpec.Method)
+		s = msgx.GenResponse(rng, gopts, reqSpec.Method)
 	} else {
 		s = reqSpec
 	}
+	undeclared := len(s.Trailers) > 0 && !s.Declared
 	wantTarget := "" // request target the snapshot must show ("" = the one on the wire)
 	if !c.Resp {
 		wantTarget = planRewrite(rng, c.Rewrite, s)
@@ -402,11 +488,15 @@ func (t *twin) one(r *vh.Run, c c15Case) {
 		return
 	}
 	defer remove()
-	if c.Skip {
+	markSkip := func() {
 		if c.API {
 			ctx.APIRequest()
 		}
 		ctx.SkipLogging()
+	}
+	between := c.Between && c.Resp && c.Cfg.Logger != "mv"
+	if c.Skip && !between {
+		markSkip()
 	}
 	// --- fault: the original body fails on Close after a complete read
 	closeErr := c.CloseErr && s.Framing != "chunked" && len(s.WireBody()) > 0
@@ -417,6 +507,17 @@ func (t *twin) one(r *vh.Run, c c15Case) {
 			reqA.Body, reqB.Body = closeFailBody{reqA.Body}, closeFailBody{reqB.Body}
 		}
 		witness["fault"] = "body Close() returns an error after EOF"
+	}
+	// --- fault: the body fails part-way, the failing Read also delivers data
+	readErr := c.ReadErr && !closeErr && s.Framing != "chunked" && len(s.WireBody()) >= 2 && passesThrough(c.Cfg, s.CType, c.Resp)
+	if readErr {
+		failAt := 1 + rng.Intn(len(s.WireBody())-1)
+		if c.Resp {
+			resA.Body, resB.Body = &readFailBody{rc: resA.Body, failAt: failAt}, &readFailBody{rc: resB.Body, failAt: failAt}
+		} else {
+			reqA.Body, reqB.Body = &readFailBody{rc: reqA.Body, failAt: failAt}, &readFailBody{rc: reqB.Body, failAt: failAt}
+		}
+		witness["fault"] = fmt.Sprintf("the Read that delivers body byte %d returns its data together with an error", failAt)
 	}
 
 	// --- the logger under test
@@ -440,6 +541,9 @@ func (t *twin) one(r *vh.Run, c c15Case) {
 				viol("C15:no-error:"+stubClass, fmt.Sprintf("har (%s) returned an error for the bodiless request the response answers (%s %s): %v", c.Cfg.Opt, s.Method, reqSpec.Target, err))
 				return
 			}
+			if between {
+				markSkip() // a later request modifier marks the exchange
+			}
 			logErr = hl.ModifyResponse(resB)
 		} else {
 			logErr = hl.ModifyRequest(reqB)
@@ -448,6 +552,14 @@ func (t *twin) one(r *vh.Run, c c15Case) {
 		if c.Skip && !t.e.flushMarbl() { // frames of earlier cases may still be in flight
 			inconc("marbl stream did not flush the sentinel within the watchdog")
 			return
+		}
+		if between {
+			t.e.marbl.ModifyRequest(reqB)
+			if !t.e.flushMarbl() {
+				inconc("marbl stream did not flush the sentinel within the watchdog")
+				return
+			}
+			markSkip()
 		}
 		frameFrom = t.e.sink.count()
 		if c.Resp {
@@ -460,6 +572,11 @@ func (t *twin) one(r *vh.Run, c c15Case) {
 		tl.SetHeadersOnly(c.Cfg.Opt[1] == '1')
 		tl.SetDecode(c.Cfg.Opt[3] == '1')
 		tl.SetLogFunc(func(string) { textCalls++ })
+		if between {
+			tl.ModifyRequest(reqB)
+			textCalls = 0 // what is logged from here on counts
+			markSkip()
+		}
 		if c.Resp {
 			logErr = tl.ModifyResponse(resB)
 		} else {
@@ -502,6 +619,29 @@ func (t *twin) one(r *vh.Run, c c15Case) {
 	// A body whose Close fails makes net/http's Write return that error after the
 	// last body byte was written (the unlogged path forwards the complete message);
 	// the bytes are what is compared.
+	if readErr {
+		// both paths forward what the body delivered, including the bytes that came
+		// with the error, and then fail: compare the bytes put on the wire
+		if !sameErr(errA, errBodyRead) {
+			inconc(fmt.Sprintf("unlogged twin: Write returned %v instead of the injected read error", errA))
+			return
+		}
+		if !bytes.Equal(bufA.Bytes(), bufB.Bytes()) {
+			i := vh.FirstDiff(bufA.Bytes(), bufB.Bytes())
+			witness["without_logger_tail"] = msgx.Excerpt(bufA.Bytes()[max0(bufA.Len()-80):], 80)
+			witness["with_logger_tail"] = msgx.Excerpt(bufB.Bytes()[max0(bufB.Len()-80):], 80)
+			viol("C15:forwarded-identical:"+c.Cfg.Logger+"+body-read-error", fmt.Sprintf("%s (%s): the body fails part-way; without the logger %d bytes reach the wire, with it %d (first difference at %d, Write error with logger: %v)", c.Cfg.Logger, c.Cfg.Opt, bufA.Len(), bufB.Len(), i, errB))
+		} else if !sameErr(errB, errBodyRead) {
+			viol("C15:forwarded-identical:"+c.Cfg.Logger+"+body-read-error", fmt.Sprintf("%s (%s): the body's read error is not reported when the logged message is written (got %v)", c.Cfg.Logger, c.Cfg.Opt, errB))
+		}
+		if logErr != nil {
+			witness["logger_error"] = logErr.Error()
+		}
+		r.Count("twin_bytes_compared", int64(bufA.Len()))
+		r.Class("body-read-fails-midway|" + c.Cfg.Logger + "/" + c.Cfg.Opt + "|" + s.Kind())
+		r.Class(classOf(c, s))
+		return
+	}
 	if closeErr && errors.Is(errA, errBodyClose) {
 		errA = nil
 	}
@@ -533,7 +673,12 @@ func (t *twin) one(r *vh.Run, c c15Case) {
 	}
 	pb, restB, eb := msgx.ParsePrefix(bufB.Bytes(), c.Resp, s.Method)
 	identical := false
-	if eb != nil {
+	if undeclared {
+		// net/http forwards trailer fields that no Trailer header announced only if the
+		// body was read before forwarding: the twins differ by net/http's doing, only
+		// the snapshot is judged
+		r.Count("undeclared_trailer_messages_snapshot_only", 1)
+	} else if eb != nil {
 		witness["with_logger"] = msgx.Excerpt(bufB.Bytes(), 700)
 		viol("C15:forwarded-identical:"+c.Cfg.Logger, "after logging, the serialised message does not parse: "+eb.Error())
 	} else if d := cmpForwarded(pa, pb); d != "" || !bytes.Equal(restA, restB) {
@@ -552,8 +697,15 @@ func (t *twin) one(r *vh.Run, c c15Case) {
 	if c.Skip {
 		switch c.Cfg.Logger {
 		case "har":
-			if n := len(hl.Export().Log.Entries); n != 0 {
-				viol("C15:skip-logging:har.Logger", fmt.Sprintf("exchange marked SkipLogging is in the HAR export (%d entries)", n))
+			es := hl.Export().Log.Entries
+			switch {
+			case between:
+				// the request was recorded before the mark; nothing recorded after it
+				if len(es) == 1 && es[0].Response != nil || len(hl.ExportAndReset().Log.Entries) != 0 {
+					viol("C15:skip-logging:har.Logger", "the exchange was marked SkipLogging after its request was logged, yet its response is recorded and the entry exported as completed")
+				}
+			case len(es) != 0:
+				viol("C15:skip-logging:har.Logger", fmt.Sprintf("exchange marked SkipLogging is in the HAR export (%d entries)", len(es)))
 			}
 		case "text":
 			if textCalls != 0 {
@@ -575,7 +727,7 @@ func (t *twin) one(r *vh.Run, c c15Case) {
 				viol("C15:skip-logging:marbl.Modifier", fmt.Sprintf("exchange marked SkipLogging produced %d marbl frames", n))
 			}
 		}
-		r.Class(fmt.Sprintf("skip-logging|%s|api=%v", c.Cfg.Logger, c.API))
+		r.Class(fmt.Sprintf("skip-logging|%s|api=%v|marked-between=%v", c.Cfg.Logger, c.API, between))
 	} else {
 		switch c.Cfg.Logger {
 		case "text":
@@ -599,6 +751,19 @@ func (t *twin) one(r *vh.Run, c c15Case) {
 	if c.Idx%1499 == 7 {
 		r.Sample(map[string]interface{}{"case": c, "message_head": msgx.Excerpt(pa.Head, 400), "body_len": len(pa.Body), "forwarded_identical": identical})
 	}
+}
+
+// sameErr reports whether err is (a wrapping of) target; net/http wraps body
+// read errors of requests in a type without Unwrap.
+func sameErr(err, target error) bool {
+	return err != nil && (errors.Is(err, target) || err.Error() == target.Error())
+}
+
+func max0(n int) int {
+	if n < 0 {
+		return 0
+	}
+	return n
 }
 
 // planRewrite changes the spec for the rewrite kind and returns the URL the
@@ -652,11 +817,11 @@ func checkSnapshot(r *vh.Run, c interface{}, s *msgx.Spec, mv *messageview.Messa
 	}
 	if err != nil {
 		// The known defect gets its own signature: everything of a chunked message
-		// with (declared) trailers is there, body and trailer fields intact, and
+		// with trailers is there, body and trailer fields intact, and
 		// only the empty line that ends the trailer section is missing. Any other
 		// way of not parsing is a different signature.
 		sig := "C15:snapshot-parse:other/" + s.FramingClass()
-		if s.Framing == "chunked" && len(s.Trailers) > 0 && s.Declared && p != nil &&
+		if s.Framing == "chunked" && len(s.Trailers) > 0 && p != nil &&
 			strings.Contains(err.Error(), "unexpected EOF in trailer section (no terminating empty line)") &&
 			bytes.Equal(p.Body, s.WireBody()) &&
 			msgx.DiffByName(msgx.ByName(p.Trailers, nil), msgx.ByName(s.Trailers, nil)) == "" {
